@@ -319,6 +319,7 @@ class Parser:
         self.hi = hi
         self.macros = macros or {}
         self.expansions = 0
+        self.tol = False      # tolerant mode (tools/gen_pipeshape.py): unsupported constructs become opaque nodes
 
     # --- token helpers
     def peek(self, k=0):
@@ -433,6 +434,26 @@ class Parser:
             return N("ptuple", elems=elems)
         if self.eat("&"):
             return self.pattern1()
+        if self.tol:
+            if t.kind in ("str", "char") or (t.kind == "num") or (t.text == "-" and self.peek(1).kind == "num"):
+                if t.text == "-":
+                    self.i += 1
+                txt = self.peek().text
+                self.i += 1
+                if self.at("..=") or self.at(".."):
+                    self.i += 1
+                    if self.peek().kind in ("num", "char", "str", "ident") or self.at("-"):
+                        self.pattern1()
+                return N("popaque", text=txt)
+            if t.text == "[":
+                self.i = skip_group(self.t, self.i)
+                return N("popaque", text="[..]")
+            if t.text == "..":
+                self.i += 1
+                return N("pwild")
+            if t.kind == "ident" and t.text == "box":
+                self.i += 1
+                return self.pattern1()
         if t.kind == "num":
             self.i += 1
             return N("plit", value=parse_int(t.text)[0], suffix=parse_int(t.text)[1])
@@ -446,11 +467,26 @@ class Parser:
             self.i += 1
             mut = True
         if self.at("ref"):
-            raise Unsupported("`ref` patterns are not supported")
+            if not self.tol:
+                raise Unsupported("`ref` patterns are not supported")
+            self.i += 1
+            self.eat("mut")
         segs = [self.ident()]
         while self.at("::"):
             self.i += 1
+            if self.tol and self.at("<"):
+                self.i += 1
+                while True:
+                    self.type_()
+                    if not self.eat(","):
+                        break
+                self.close_angle()
+                continue
             segs.append(self.ident())
+        if self.tol and self.at("@"):
+            self.i += 1
+            inner = self.pattern1()
+            return N("pident", name=segs[0], mut=mut, sub=inner)
         if self.at("("):
             self.i += 1
             args = []
@@ -488,6 +524,11 @@ class Parser:
         while not self.at("}"):
             if self.eat(";"):
                 continue
+            if self.tol and self.at("#") and self.peek(1).text in ("[", "!"):
+                self.i += 1
+                self.eat("!")
+                self.i = skip_group(self.t, self.i)
+                continue
             if self.at("let"):
                 self.i += 1
                 pat = self.pattern()
@@ -495,22 +536,43 @@ class Parser:
                 if self.eat(":"):
                     ty = self.type_()
                 init = None
+                els = None
                 if self.eat("="):
                     init = self.expr()
+                    if self.tol and self.at("else"):
+                        self.i += 1
+                        els = self.block()
                 self.expect(";")
-                items.append(N("let", pat=pat, tyann=ty, init=init))
+                items.append(N("let", pat=pat, tyann=ty, init=init, els=els))
                 continue
             if self.peek().kind == "ident" and self.peek().text in ("fn", "struct", "enum", "const", "static",
-                                                                    "use", "impl", "trait", "mod", "type"):
-                raise Unsupported(f"nested item `{self.peek().text}` in a function body")
+                                                                    "use", "impl", "trait", "mod", "type") \
+                    and not (self.peek().text in ("const", "static", "type", "use") and self.peek(1).text in ("(", ".", "::") and False):
+                if not self.tol:
+                    raise Unsupported(f"nested item `{self.peek().text}` in a function body")
+                # skip the nested item: up to `;` or the end of its `{..}` body
+                while not (self.at(";") or self.at("{")):
+                    if self.peek().kind == "punct" and self.peek().text in ("(", "["):
+                        self.i = skip_group(self.t, self.i)
+                    else:
+                        self.i += 1
+                if self.at("{"):
+                    self.i = skip_group(self.t, self.i)
+                else:
+                    self.i += 1
+                continue
             if self.peek().kind == "lifetime":
-                raise Unsupported("loop labels are not supported")
+                if not self.tol:
+                    raise Unsupported("loop labels are not supported")
+                self.i += 1
+                self.expect(":")
             e = self.expr(stmt=True)
             if self.eat(";"):
                 items.append(N("expr", e=e, semi=True))
             elif self.at("}"):
                 tail = e
-            elif e.kind in ("if", "match", "while", "block", "for"):
+            elif e.kind in ("if", "match", "while", "block", "for", "whilelet") or \
+                    (e.kind == "macrocall" and e.delim == "{"):
                 items.append(N("expr", e=e, semi=False))
             else:
                 raise Unsupported(f"parse: expected `;` or `}}` after expression, found `{self.peek().text}`")
@@ -529,12 +591,21 @@ class Parser:
         if self.at("break"):
             self.i += 1
             if self.peek().kind == "lifetime" or not (self.at(";") or self.at("}") or self.at(",")):
-                raise Unsupported("`break` with a label or a value is not supported")
+                if not self.tol:
+                    raise Unsupported("`break` with a label or a value is not supported")
+                if self.peek().kind == "lifetime":
+                    self.i += 1
+                v = None
+                if not (self.at(";") or self.at("}") or self.at(",")):
+                    v = self.expr(nostruct=nostruct)
+                return N("break", value=v)
             return N("break")
         if self.at("continue"):
             self.i += 1
             if self.peek().kind == "lifetime":
-                raise Unsupported("`continue` with a label is not supported")
+                if not self.tol:
+                    raise Unsupported("`continue` with a label is not supported")
+                self.i += 1
             return N("continue")
         lhs = self.range_expr(nostruct)
         t = self.peek()
@@ -585,7 +656,9 @@ class Parser:
         if t.kind == "punct" and t.text in ("!", "-", "*", "&"):
             self.i += 1
             if t.text == "&" and self.at("mut"):
-                raise Unsupported("`&mut` borrow")
+                if not self.tol:
+                    raise Unsupported("`&mut` borrow")
+                self.i += 1
             return N("un", op=t.text, e=self.unary(nostruct))
         if t.kind == "punct" and t.text == "&&":
             self.i += 1
@@ -618,6 +691,9 @@ class Parser:
             if self.at("(") and e.kind == "path":
                 e = N("call", path=e.path, args=self.args())
                 continue
+            if self.tol and self.at("(") and e.kind in ("paren", "field", "index", "call", "mcall", "callx"):
+                e = N("callx", f=e, args=self.args())
+                continue
             if self.at("."):
                 nxt = self.peek(1)
                 if nxt.kind == "num":
@@ -648,9 +724,18 @@ class Parser:
         t = self.peek()
         if t.kind == "num":
             self.i += 1
+            if self.tol:
+                try:
+                    v, suf = parse_int(t.text)
+                except Unsupported:
+                    return N("opaque", text=t.text)
+                return N("lit", value=v, suffix=suf)
             v, suf = parse_int(t.text)
             return N("lit", value=v, suffix=suf)
         if t.kind in ("str", "char"):
+            if self.tol:
+                self.i += 1
+                return N("opaque", text=t.text)
             raise Unsupported("string / char literals are not supported")
         if t.kind == "punct":
             if t.text == "(":
@@ -727,7 +812,13 @@ class Parser:
         if w == "while":
             self.i += 1
             if self.at("let"):
-                raise Unsupported("`while let` is not supported")
+                if not self.tol:
+                    raise Unsupported("`while let` is not supported")
+                self.i += 1
+                pat = self.pattern()
+                self.expect("=")
+                sc = self.expr(nostruct=True)
+                return N("whilelet", pat=pat, s=sc, body=self.block())
             c = self.expr(nostruct=True)
             return N("while", c=c, body=self.block())
         if w == "match":
@@ -736,9 +827,16 @@ class Parser:
             self.expect("{")
             arms = []
             while not self.at("}"):
+                while self.tol and self.at("#"):
+                    self.i += 1
+                    self.i = skip_group(self.t, self.i)
+                self.eat("|") if self.tol else None
                 p = self.pattern()
                 if self.at("if"):
-                    raise Unsupported("match guards are not supported")
+                    if not self.tol:
+                        raise Unsupported("match guards are not supported")
+                    self.i += 1
+                    p.guard = self.expr(nostruct=False)
                 self.expect("=>")
                 body = self.expr()
                 arms.append((p, body))
@@ -762,6 +860,9 @@ class Parser:
         if w == "move" and self.peek(1).text in ("|", "||"):
             self.i += 1
             return self.closure()
+        if w == "unsafe" and self.tol and self.peek(1).text == "{":
+            self.i += 1
+            return self.block()
         if w in ("move", "unsafe", "async"):
             raise Unsupported(f"`{w}` expressions are not supported")
         if w == "vec" and self.peek(1).text == "!":
@@ -797,13 +898,23 @@ class Parser:
             if self.peek(1).text in _OPEN and self.peek(1).kind == "punct":
                 if len(segs) == 1 and segs[0] in self.macros:
                     return self.expand_macro(segs[0])
+                if self.tol:
+                    self.i += 1
+                    start = self.i
+                    end = skip_group(self.t, start)
+                    self.i = end
+                    return N("macrocall", name="::".join(segs), toks=self.t[start + 1:end - 1], delim=self.t[start].text)
                 raise Unsupported(f"macro `{'::'.join(segs)}!` is not supported")
         if self.at("{") and not nostruct and segs[-1][0].isupper():
             self.i += 1
             fields = []
             while not self.at("}"):
                 if self.at(".."):
-                    raise Unsupported("struct update syntax `..base` is not supported")
+                    if not self.tol:
+                        raise Unsupported("struct update syntax `..base` is not supported")
+                    self.i += 1
+                    fields.append(("..", self.expr()))
+                    break
                 fn_ = self.ident() if self.peek().kind == "ident" else None
                 if fn_ is None:
                     t2 = self.peek()
